@@ -4,7 +4,7 @@
    H qdd + N = ID(qdd), M^-1 tau and the L^T L factorisation are decided by correspondence and the L3 oracle
    (H_spec from the first-principles inverse dynamics, residuals of the factorisation and of the solves). *)
 From Coq Require Import List Arith.
-From RV Require Import Scalar Laws ListArr ModelDef JointDef KinDef LinDef DynDef C14Thm WsLemmas KinThm DynThm NleThm.
+From RV Require Import Scalar Laws ListArr ModelDef JointDef KinDef LinDef DynDef ConsDef C14Thm WsLemmas KinThm DynThm NleThm EnergyThm SymThm.
 Section P.
   Context {T : Type} (O : Ops T) {FL : FieldLaws O}.
   Theorem C03_nonlinear_effects_is_inverse_dynamics_at_zero_acceleration
@@ -32,5 +32,27 @@ Section P.
     exact (nle_forward_spec O M q qd W C Hc Hr w).
   Qed.
 End P.
+Section P2.
+  Context {T : Type} (O : Ops T) {FL : FieldLaws O} {TL : TrigLaws O}.
+  (* H is symmetric: every workspace whose motion subspaces have the joints' sizes ... *)
+  Theorem C03_inertia_matrix_symmetric (M : @Model T) (w : @WS T) q : WF M ->
+    (forall k, 0 < k < nbodies M -> length (jS O M w k) = jdof (getJ M k)) ->
+    let n := dof_count M in
+    forall i j, i < n -> j < n ->
+      mget (o0 O) (snd (crba O M w q (zerosM O n n) false)) i j = mget (o0 O) (snd (crba O M w q (zerosM O n n) false)) j i.
+  Proof. intros W HS. exact (crba_symmetric O M W w q HS). Qed.
+  (* ... in particular the workspace left by the position update, from any well-formed workspace *)
+  Theorem C03_inertia_matrix_symmetric_after_position_update (M : @Model T) (w0 : @WS T) q : WF M ->
+    (forall i j, 0 < i < nbodies M -> 0 < j < nbodies M -> i <> j ->
+       is_custom (jkind (getJ M i)) = true -> is_custom (jkind (getJ M j)) = true -> jcust (getJ M i) <> jcust (getJ M j)) ->
+    Good O M w0 ->
+    let n := dof_count M in
+    forall i j, i < n -> j < n ->
+      mget (o0 O) (snd (crba O M (ukc_q O M w0 q) q (zerosM O n n) false)) i j =
+      mget (o0 O) (snd (crba O M (ukc_q O M w0 q) q (zerosM O n n) false)) j i.
+  Proof. intros W C Hg. exact (crba_symmetric_after_position_update O M W C w0 q Hg). Qed.
+End P2.
 Print Assumptions C03_nonlinear_effects_is_inverse_dynamics_at_zero_acceleration.
 Print Assumptions C03_nonlinear_effects_outward_pass.
+Print Assumptions C03_inertia_matrix_symmetric.
+Print Assumptions C03_inertia_matrix_symmetric_after_position_update.
